@@ -281,8 +281,8 @@ func URLRequest(t *rapid.T, ss *SchemaSpec, o URLOpts) *URLReq {
 		return s
 	}
 
-	shape := rapid.SampledFrom([]string{"col", "col", "col", "res", "related", "self", "odd"}).Draw(t, "shape")
-	if (shape == "related" || shape == "self") && len(ts.Rels) == 0 {
+	shape := rapid.SampledFrom([]string{"col", "col", "col", "res", "related", "self", "odd", "deep"}).Draw(t, "shape")
+	if (shape == "related" || shape == "self" || shape == "deep") && len(ts.Rels) == 0 {
 		shape = "col"
 	}
 
@@ -307,6 +307,19 @@ func URLRequest(t *rapid.T, ss *SchemaSpec, o URLOpts) *URLReq {
 		} else {
 			r.PathSegs = []string{ts.Name, id("rid"), "relationships", rel.FromName}
 		}
+	case "deep":
+		// /type/id/<1..3 extra segments>/rel : the parser takes the last
+		// fragment as the relationship whatever comes in between.
+		rel := ts.Rels[rapid.IntRange(0, len(ts.Rels)-1).Draw(t, "urel")]
+		resType = ss.Type(rel.ToType)
+		r.PathSegs = []string{ts.Name, id("rid")}
+		mid := append([]string{"relationships", "x", "meta"}, relNames(ts)...)
+
+		for k := rapid.IntRange(1, 3).Draw(t, "nmid"); k > 0; k-- {
+			r.PathSegs = append(r.PathSegs, rapid.SampledFrom(mid).Draw(t, "mid"))
+		}
+
+		r.PathSegs = append(r.PathSegs, rel.FromName)
 	default:
 		n := rapid.IntRange(0, 6).Draw(t, "nsegs")
 		pool := []string{ts.Name, "nope", "meta", "relationships", "", "x/y", id("rid")}
@@ -436,20 +449,16 @@ func URLRequest(t *rapid.T, ss *SchemaSpec, o URLOpts) *URLReq {
 			v := HostileString(t, "label")
 
 			if o.Valid {
-				// A label is read as the body of a JSON string: no quote, backslash
-				// or control character; not starting with '{'; not empty.
-				v = strings.Map(func(c rune) rune {
-					if c == '"' || c == '\\' || c < 0x20 {
-						return '_'
-					}
-
-					return c
-				}, v)
+				// A label is read as the body of a JSON string: quotes,
+				// backslashes and control characters are written as JSON
+				// escapes; it must not start with '{' nor be empty.
 				v = strings.TrimLeft(v, "{")
-
 				if v == "" {
 					v = "lbl"
 				}
+
+				q := QuoteJSON(v)
+				v = q[1 : len(q)-1]
 			}
 
 			r.Params = append(r.Params, QParam{"filter", v})
